@@ -25,6 +25,10 @@ type baseCockpit struct {
 	spinner *spinner.Spinner
 	charSet int
 	closeCh chan bool
+
+	// spinnerMu serializes updates of the spinner's final message. The spinner calls PreUpdate,
+	// which locks mu, while holding its own lock, so mu must not be held when calling into the spinner
+	spinnerMu sync.Mutex
 }
 
 type cockpitOutputDecorator struct {
@@ -71,15 +75,15 @@ func (b *baseCockpit) add(t *task.Task) {
 
 func (b *baseCockpit) remove(t *task.Task) {
 	b.mu.Lock()
-	defer b.mu.Unlock()
-
 	for k, v := range b.tasks {
 		if v == t {
 			b.tasks = append(b.tasks[:k], b.tasks[k+1:]...)
 		}
 	}
+	s := b.spinner
+	b.mu.Unlock()
 
-	if b.spinner == nil {
+	if s == nil {
 		// nothing has been started yet, e.g. task was skipped
 		return
 	}
@@ -88,9 +92,12 @@ func (b *baseCockpit) remove(t *task.Task) {
 	if t.Errored {
 		mark = aurora.Red("✗")
 	}
-	b.spinner.FinalMSG = fmt.Sprintf("%s Finished %s in %s\r\n", mark, aurora.Bold(t.Name), t.Duration())
-	b.spinner.Restart()
-	b.spinner.FinalMSG = ""
+
+	b.spinnerMu.Lock()
+	defer b.spinnerMu.Unlock()
+	s.FinalMSG = fmt.Sprintf("%s Finished %s in %s\r\n", mark, aurora.Bold(t.Name), t.Duration())
+	s.Restart()
+	s.FinalMSG = ""
 }
 
 func newCockpitOutputWriter(t *task.Task, w io.Writer, close chan bool) *cockpitOutputDecorator {
